@@ -17,7 +17,7 @@ THEOREMS = [
     "c14_translated", "c14_poll_interval_documented", "c14_deadline", "c14_timeout_at_deadline", "c14_cancel_latency", "c14_cancelled_only_if_fired",
     "c14_one_cancel_notification", "c14_cancel_before_send_writes_no_request", "c14_progress_exact",
     "c14_consumed_is_before_completion", "c14_progress_token_filter", "c14_callback_failure_irrelevant",
-    "c14_shared_token", "c14_shared_token_starts", "c14_blocked_writer", "c14_token_flag", "c14_token_callbacks",
+    "c14_shared_token", "c14_shared_token_starts", "c14_blocked_writer", "c14_stalled_writer", "c14_token_flag", "c14_token_callbacks",
 ]
 RULE = (
     "schedules: placements of {cancel, matching response, deadline} on the tick grid (1/1024 s) at poll boundaries +-1 tick, "
@@ -75,16 +75,23 @@ class Schedules(Suite):
                                     "D": D, "tie": tie, "progress": False, "ev": ev}
                             if c is not None:
                                 case["cancelAt"] = c
+                                case["tokenKind"] = ["plain", "linked", "duck"][k % 3]
                             out.append(G.place(case))
                             if c is not None and k % 4 == 0:
                                 # the same schedule against a peer that closed its end / stopped reading
                                 for wm in ("closed", "blocked"):
                                     out.append(G.place(dict(case, writer=wm, ev=[list(e) for e in ev])))
+                                # a peer that is only slow: reads again one tick / one poll / two polls after the token fired
+                                for dr in (1, P // 2, P + 3, 2 * P + 1):
+                                    su = c + dr
+                                    if su != D:
+                                        out.append(G.place(dict(case, writer="stalled", stallUntil=su, ev=[list(e) for e in ev])))
         # cancelled before sending / token present but never fired
         for tie in ("events", "timers", "io"):
             for ev in ([], [[0, G.sym_event("N")]], [[5, {"k": "resp", "id": "$ID", "p": {"x": 1}}]]):
-                out.append(G.place({"id": {"s": "abc"}, "method": "m", "params": None, "D": 2 * P, "tie": tie, "pre": True, "ev": [list(e) for e in ev]}))
-                out.append(G.place({"id": {"s": "abc"}, "method": "m", "params": None, "D": 2 * P, "tie": tie, "hasToken": True, "ev": [list(e) for e in ev]}))
+                for tk in ("plain", "linked", "duck"):
+                    out.append(G.place({"id": {"s": "abc"}, "method": "m", "params": None, "D": 2 * P, "tie": tie, "pre": True, "tokenKind": tk, "ev": [list(e) for e in ev]}))
+                    out.append(G.place({"id": {"s": "abc"}, "method": "m", "params": None, "D": 2 * P, "tie": tie, "hasToken": True, "tokenKind": tk, "ev": [list(e) for e in ev]}))
         # progress with a params dict that already carries a (stale) progress token: the request must
         # go out with the token the callback is registered under, and notifications bearing it count
         for tie in ("events", "io"):
@@ -94,6 +101,16 @@ class Schedules(Suite):
                                     "ev": [[5, G.sym_event("G", k=1)], [9, G.sym_event("G", k=2)],
                                            [12, {"k": "progress", "token": {"s": "stale-token"}, "progress": 0.9}],
                                            [40, {"k": "resp", "id": "$ID", "p": {"ok": True}}]]}))
+        # re-entrancy: the progress callback cancels the call's own token, or writes on the call's own
+        # write stream (oracle only: the model has no callbacks with effects)
+        for tie in ("events", "timers", "io"):
+            for k_act in (0, 1, 2):
+                for act in ("cancel", "send"):
+                    for tk in ("plain", "linked", "duck"):
+                        evs = [[5 + 40 * i, G.sym_event("G", k=i + 1)] for i in range(4)] + [[P + 30, {"k": "resp", "id": "$ID", "p": {"ok": 1}}]]
+                        out.append(G.place({"id": {"s": "abc"}, "method": "tools/call", "params": {"name": "x"}, "D": 2 * P, "tie": tie,
+                                            "progress": True, "hasToken": True, "tokenKind": tk, "cbAction": [act, k_act], "ev": evs,
+                                            "debug": k_act == 1}))
         # progress streams
         rng = ctx.sub_rng("c14-progress", budget)
         n = 6000 if budget == "quick" else 150000
@@ -110,6 +127,12 @@ class Schedules(Suite):
         obs = []
         for c in cases:
             o = H.run_case(c)
+            if c.get("cbAction") and c["cbAction"][0] == "send":
+                c2 = dict(c)
+                c2.pop("cbAction")
+                o2 = H.run_case(c2)
+                o["twin"] = {"outcome": o2["outcome"], "t": o2["t"], "cbs": o2["cbs"], "p": o2.get("p"),
+                             "writes": H.impl_shape(c2, o2)["writes"]}
             if c.get("cbRaises"):
                 c2 = dict(c)
                 c2.pop("cbRaises")
@@ -120,7 +143,7 @@ class Schedules(Suite):
         return obs
 
     def model_line(self, case, o=None):
-        if o is None or o.get("harness_errors"):
+        if o is None or o.get("harness_errors") or case.get("cbAction"):
             return None
         return H.model_line(case, o)
 
@@ -140,8 +163,12 @@ class Schedules(Suite):
             tags.append("progress")
         if case.get("cbRaises"):
             tags.append("cbraise")
+        if case.get("cbAction"):
+            tags.append("cb-" + case["cbAction"][0])
         if case.get("writer"):
             tags.append("w-" + case["writer"])
+        if case.get("tokenKind", "plain") != "plain" and (case.get("cancelAt") is not None or case.get("pre") or case.get("hasToken")):
+            tags.append("tok-" + case["tokenKind"])
         n = len(case["ev"])
         tags.append("none" if n == 0 else "few" if n < 8 else "burst" if n < 40 else "flood")
         return "/".join(tags)
@@ -163,6 +190,12 @@ class Schedules(Suite):
         if o["outcome"] == "timeout" and t != D:
             return ("timeout-early", f"TimeoutError at tick {t}, deadline {D}", {"t": D})
         c = case.get("cancelAt")
+        act = case.get("cbAction")
+        if act and act[0] == "cancel" and len(o.get("cb_ticks") or []) > act[1]:
+            # the token fired inside the act[1]-th callback: the very next check of the loop sees it
+            c = o["cb_ticks"][act[1]]
+            if o["outcome"] != "cancelled" or t != c:
+                return ("callback-cancels-own-token", f"the progress callback cancelled the call's token at tick {c}; the call ended {o['outcome']} at {t}", {"outcome": "cancelled", "t": c})
         cancels = [w for w in o["writes"] if isinstance(w, dict) and w.get("method") == "notifications/cancelled"]
         if case.get("pre"):
             reqs = [w for w in o["writes"] if isinstance(w, dict) and "id" in w and w.get("method")]
@@ -173,7 +206,10 @@ class Schedules(Suite):
             # a peer that has stopped reading: the cancelled notification cannot be written; the
             # deadline (checked above) is what still bounds the call -- outside the property's
             # quantifier (inbound traffic), see DESIGN 9.8
-            if t > c + P and wm != "blocked":
+            slack = c + P
+            if wm == "stalled":
+                slack = max(slack, case["stallUntil"])  # the notification goes out when the peer reads again
+            if t > slack and wm != "blocked":
                 return ("cancel-latency", f"token fired at {c}, call ended at {t} > {c}+{P} ({o['outcome']})", {"t<=": c + P})
             if o["outcome"] == "cancelled" and t < c:
                 return ("cancelled-early", f"CancelledError at {t} before the token fired at {c}", None)
@@ -201,7 +237,7 @@ class Schedules(Suite):
             if [x for _, x in seq[:k] if x is not None] == o["cbs"]:
                 ok = True
                 break
-        if not ok and wm == "blocked" and c is not None and c < t:
+        if not ok and wm in ("blocked", "stalled") and c is not None and c < t:
             # stuck in the write of the cancelled notification since the poll after `c`: what arrives
             # while the call is stuck is not consumed (outside the quantifier, DESIGN 9.8); what
             # arrived before the token fired must still have been delivered, in order
@@ -214,6 +250,8 @@ class Schedules(Suite):
         if "twin" in o:
             tw = o["twin"]
             me = {"outcome": o["outcome"], "t": o["t"], "cbs": o["cbs"], "p": o.get("p"), "writes": H.impl_shape(case, o)["writes"]}
+            if act and act[0] == "send":
+                me["writes"] = [w for w in me["writes"] if w != "other"]  # the callback's own write
             if canon(tw) != canon(me):
                 return ("callback-failure-disturbs", f"with a raising callback the call gave {me}, without {tw}", tw)
         return None
@@ -248,7 +286,8 @@ class SharedToken(Suite):
                                 reqs.append(G.place({"id": [{"s": f"req-{i}"}, None, {"i": i + 1}][(k + i) % 3], "method": "tools/call",
                                                      "params": {"name": "x"}, "D": [2 * P, P + 100, 3 * P][(k + i) % 3],
                                                      "progress": False, "ev": [list(e) for e in h]}))
-                            out.append({"mode": mode, "tie": tie, "fire": fire, "gaps": [[0, 0], [5, 0], [P, 1]][k % 3][: n - 1] + [0], "reqs": reqs})
+                            out.append({"mode": mode, "tie": tie, "fire": fire, "gaps": [[0, 0], [5, 0], [P, 1]][k % 3][: n - 1] + [0], "reqs": reqs,
+                                        "tokenKind": ["plain", "linked", "duck"][k % 3]})
         rng = ctx.sub_rng("c14-shared", budget)
         for i in range(600 if budget == "quick" else 20000):
             n = rng.choice([2, 2, 3])
@@ -425,7 +464,7 @@ class TokenOps(Suite):
             yield dict(case, ops=case["ops"][:i] + case["ops"][i + 1:])
 
 
-G_ALL = ["R", "R0", "Rx", "E", "E0", "Q", "O", "T", "N", "G", "Gp", "F", "B", "Oe"]
+G_ALL = ["R", "R0", "Rx", "E", "E0", "Q", "O", "T", "N", "G", "Gp", "F", "B", "Oe", "Ez"]
 
 
 def suites():
